@@ -1,4 +1,180 @@
-def chk_tasks(prop):
-    return []
+"""chk2plt worker under contract (C17): ghost stripping, flooring, subset concatenation, min/max."""
+import z3
+from pyvc.vals import *  # noqa
+from pyvc.task import Task
+from pyvc.vc import veq
+from pyvc.loops import LoopSpec
+from pyvc.libfile import RFile, WFile, hdrlen, f_exists, f_size
+from pyvc.libnp import reduce_const
+from contracts.common import sym_path, Fab, fab_facts, size_of
+from contracts.ondisk import DiskFile
+
+CK = "amr_kitchen.chk2plt.chk2plt."
+I = z3.IntSort()
+
+
+class ChkWorker(Task):
+    """write_plt_bin_from_chk: for every FAB of the state file (disk order) the plotfile binary receives
+    hdrline(box range, ncomp_out) + F-order bytes of [interior state (ghosts stripped per axis; species divided by their sum
+    when flooring) ++ gradp FAB of the SAME box ++ I_R FAB of the same box]; returned offsets/mins/maxs describe exactly what
+    is written."""
+    prop = "C17"
+    reach = "U"
+    qual = CK + "write_plt_bin_from_chk"
+
+    def __init__(self, gradp, reac, floor):
+        self.gradp, self.reac, self.floor = gradp, reac, floor
+        self.name = f"write_plt_bin_from_chk[gradp={gradp},reactions={reac},flooring={floor}]"
+
+    def setup(self, ex):
+        ctx = ex.ctx
+        ctx.ghost["ndims"] = 3
+        st = DiskFile(ctx, "Fs", 3, canonical=False)
+        ns = st.nc
+        ctx.assume(ns >= 8)
+        pw, Fw = sym_path(ctx, "Fw", exists=False)
+        ctx.assume(Fw != st.F)
+        G = [z3.Int(f"G{d}") for d in range(3)]
+        BLO = [z3.Function(f"BLO{d}", I, I) for d in range(3)]
+        BHI = [z3.Function(f"BHI{d}", I, I) for d in range(3)]
+        FG, OG, FI, OI = (z3.Function(n, I, I) for n in ("FILE_gradp", "OFF_gradp", "FILE_IR", "OFF_IR"))
+        ncg, nci = z3.Ints("nc_gradp nc_IR")
+        ctx.assume(z3.And(ncg >= 1, nci >= 1, *[g >= 1 for g in G]))
+        OUT = z3.Function("OUTPOS", I, I)
+        ctx.assume(OUT(0) == 0)
+        nout = ns + (ncg if self.gradp else 0) + (nci if self.reac else 0)
+
+        def bshape(j):
+            j = to_z3(j)
+            return [simp(BHI[d](j) - BLO[d](j) + 1) for d in range(3)]
+
+        def sub(j, FF, OO, nc):
+            j = to_z3(j)
+            return Fab(ctx, FF(j), OO(j), 3, nc)
+
+        def facts(j):
+            j = to_z3(j)
+            fb = st.fab(j)
+            fs = [st.facts(j)]
+            inner = [z3.And(*[fb.lo[d] == BLO[d](j) - G[d] for d in range(3)], *[fb.hi[d] == BHI[d](j) + G[d] for d in range(3)],
+                            *[BHI[d](j) >= BLO[d](j) for d in range(3)])]
+            for on, FF, OO, nc in ((self.gradp, FG, OG, ncg), (self.reac, FI, OI, nci)):
+                if on:
+                    sb = sub(j, FF, OO, nc)
+                    inner += [to_z3(f) for f in fab_facts(sb, False)]
+                    inner += [sb.lo[d] == BLO[d](j) for d in range(3)] + [sb.hi[d] == BHI[d](j) for d in range(3)]
+                    inner += [f_exists(FF(j)), FF(j) != Fw, f_size(FF(j)) >= 0]
+            inner.append(OUT(j + 1) == OUT(j) + hdrlen([f(j) for f in BLO], [f(j) for f in BHI], nout)
+                         + 8 * size_of(ctx, bshape(j) + [nout]))
+            fs.append(z3.Implies(z3.And(j >= 0, j < st.m), z3.And(*inner)))
+            return z3.And(*fs)
+
+        def data(j):
+            fb = st.fab(j)
+            bs_ = bshape(j)
+            sg = sub(j, FG, OG, ncg) if self.gradp else None
+            si = sub(j, FI, OI, nci) if self.reac else None
+
+            def state(ix, c):
+                return fb.value(tuple(to_z3(ix[d]) + G[d] for d in range(3)), c)
+
+            def el(ix):
+                c = to_z3(ix[-1])
+                cell = tuple(ix[:3])
+                v = state(cell, c)
+                if self.floor:
+                    tot = reduce_const(ex, "sum", [ns - 7], lambda r: state(cell, 4 + to_z3(r[0])))
+                    v = zite(z3.And(c >= 4, c < ns - 3), to_real(v) / tot, v)
+                off = ns
+                if sg is not None:
+                    v = zite(c < off, v, sg.value(cell, c - off))
+                    off = off + ncg
+                if si is not None:
+                    v = zite(c < off, v, si.value(cell, c - off))
+                return v
+            return NDArray(bs_ + [nout], el)
+
+        def rec(j):
+            j = to_z3(j)
+            return [("hdr", (tuple(f(j) for f in BLO), tuple(f(j) for f in BHI), nout), None), ("ser", data(j), "F")]
+
+        def red(kind):
+            def row(j):
+                dj = data(j)
+                cache = {}
+
+                def el(ix):
+                    key = str(ix[0])
+                    if key not in cache:
+                        cache[key] = reduce_const(ex, kind, bshape(j), lambda r, c=ix[0]: dj.elem(tuple(r) + (c,)))
+                    return cache[key]
+                return NDArray([nout], el)
+            return row
+
+        def wtemplate(k):
+            wf = WFile(pw, Fw)
+            wf.nrec, wf.rec, wf.recstart, wf.rec_size = k, rec, (lambda j: OUT(to_z3(j))), 2
+            wf.pos = OUT(to_z3(k))
+            return wf
+
+        def template(ex_, fr, k, entry):
+            k3 = to_z3(k)
+            ex_.ctx.register_canon(*G, *bshape(k3), ns, ns - 7)
+            bs = RFile(st.path, st.F)
+            bs.pos = st.P(k3)
+            return {"offsets_plt": SymSeq(k, lambda j: OUT(to_z3(j))), "mins_plt": SymSeq(k, red("min")),
+                    "maxs_plt": SymSeq(k, red("max")), "bs": bs, "bp": wtemplate(k), "bid": k,
+                    "__assume__": [z3.And(k3 >= 0, k3 <= st.m), facts(k3)], "__assert__": [("in-range", k3 <= st.m)]}
+        self.loopspecs = {(self.qual, 0): LoopSpec(template)}
+
+        def pathseq(FF, nm):
+            def get(j):
+                o = Opaque(nm, "path")
+                o.sym = FF(to_z3(j))
+                return o
+            return SymSeq(st.m, get, "list")
+        args = (st.path, pathseq(FG, "gradp_file"), pathseq(FI, "IR_file"),
+                SymSeq(st.m, lambda j: [Vec([f(to_z3(j)) for f in BLO]), Vec([f(to_z3(j)) for f in BHI])], "ndarray"),
+                SymSeq(st.m, lambda j: OG(to_z3(j)), "ndarray"), SymSeq(st.m, lambda j: OI(to_z3(j)), "ndarray"), pw,
+                {"x_velocity": 0, "y_velocity": 1, "z_velocity": 2, "density": 3, "Y_start": 4, "Y_end": -3, "rhoh": -3,
+                 "temp": -2, "RhoRT": -1}, self.gradp, self.reac, self.floor)
+        return {"args": [args], "m": st.m, "OUT": OUT, "wtemplate": wtemplate, "Fw": Fw, "red": red}
+
+    def post(self, ex, inp, out):
+        ctx = ex.ctx
+        ctx.oblige("raises-nothing", out.kind == "ret", "P", note=str(out.exc) if out.kind != "ret" else "")
+        if out.kind != "ret":
+            return
+        m, OUT = inp["m"], inp["OUT"]
+        v = out.value
+        ok = isinstance(v, tuple) and len(v) == 3
+        ctx.oblige("post.returns-triple", ok, "P")
+        if not ok:
+            return
+        ctx.oblige("post.offsets", veq(ctx, v[0], SymSeq(m, lambda j: OUT(to_z3(j)))), "P")
+        ctx.oblige("post.mins-are-extrema-of-the-written-array", veq(ctx, v[1], SymSeq(m, inp["red"]("min"))), "P")
+        ctx.oblige("post.maxs-are-extrema-of-the-written-array", veq(ctx, v[2], SymSeq(m, inp["red"]("max"))), "P")
+        wfs = ctx.ghost.get("wfiles", [])
+        ctx.oblige("frame.writes-only-the-plotfile-binary", len(wfs) == 1 and wfs[0].F is inp["Fw"], "P")
+        if len(wfs) == 1:
+            exp = inp["wtemplate"](m)
+            exp.closed = True
+            ctx.oblige("post.output-file-content", veq(ctx, wfs[0], exp), "P")
+
+
+def chk_tasks(prop, tier="quick"):
+    out = [ChkWorker(False, False, False), ChkWorker(True, True, False), ChkWorker(True, False, False)]
+    if tier == "thorough":
+        # flooring adds a division by an uninterpreted SUM inside MIN/MAX congruences: seconds per query, kept out of
+        # the every-change tier so that verdicts cannot flip under load (the bounded layer covers flooring there)
+        out += [ChkWorker(True, False, True), ChkWorker(False, True, True)]
+    return out
+
+
 def chk_canaries():
-    return []
+    f = "amr_kitchen/chk2plt/chk2plt.py"
+    return [("ghost width of the first axis used for the second",
+             [(f, "                            n_ghosts[1]:-n_ghosts[1],", "                            n_ghosts[0]:-n_ghosts[0],")],
+             ["write_plt_bin_from_chk[gradp=False,reactions=False,flooring=False]"]),
+            ("gradp read at the offset of the reaction rates", [(f, "                        bg.seek(offsets_gradp[bid])", "                        bg.seek(offsets_I_R[bid])")],
+             ["write_plt_bin_from_chk[gradp=True,reactions=True,flooring=False]"])]
